@@ -133,7 +133,7 @@ func TestC16_JWKRoundTrip(t *testing.T) {
 		}
 
 		// modifications that must be rejected
-		mod := rapid.IntRange(0, 7).Draw(t, "mod")
+		mod := rapid.IntRange(0, 8).Draw(t, "mod")
 		bad := *j
 		label := ""
 		coord := rapid.IntRange(0, 1).Draw(t, "coord")
@@ -190,6 +190,16 @@ func TestC16_JWKRoundTrip(t *testing.T) {
 			label = "stripped-leading"
 			if b[0] == 0 {
 				label = "stripped-leading-zero"
+			}
+		case 8: // the bytes of x and y cut at another place: together still the point, neither coordinate of the curve's width
+			if kt == ktEd25519 {
+				bad.X = b64(append(append([]byte{}, x...), x...))
+				label = "doubled-x"
+			} else {
+				both := append(append([]byte{}, x...), y...)
+				cut := rapid.SampledFrom([]int{len(x) - 1, len(x) + 1, len(x) - 2, len(x) + 2, 1, 0, len(both)}).Draw(t, "cut")
+				bad.X, bad.Y = b64(both[:cut]), b64(both[cut:])
+				label = "shifted-split"
 			}
 		case 6: // point labelled with another curve
 			others := []keyType{ktP256, ktP384, ktP521, ktSecp256k1}
@@ -274,6 +284,23 @@ func TestC16_JWKRoundTrip(t *testing.T) {
 			var noType jwsutil.JWK
 			if err := noType.UnmarshalJSON([]byte(refJCS(map[string]interface{}{"KTY": j.Kty, "CRV": j.Crv, "x": j.X, "y": j.Y}))); err == nil {
 				t.Fatalf("C16 %s: JWK without kty / crv members (only KTY / CRV) accepted", k.Name)
+			}
+		}
+		// a JWK is JSON text: the same object in another spelling (escapes in strings, white space, member order) is the same key
+		{
+			m := map[string]interface{}{"kty": j.Kty, "crv": j.Crv, "x": j.X}
+			if j.Y != "" {
+				m["y"] = j.Y
+			}
+			text := spell(t, m, 1)
+			var spelled jwsutil.JWK
+			if err := spelled.UnmarshalJSON([]byte(text)); err != nil {
+				t.Fatalf("C16 %s: valid JWK refused in another JSON spelling: %v\n %s", k.Name, err, text)
+			}
+			bj, err := spelled.MarshalJSON()
+			var out map[string]interface{}
+			if err != nil || json.Unmarshal(bj, &out) != nil || out["x"] != j.X || (j.Y != "" && out["y"] != j.Y) || out["crv"] != j.Crv {
+				t.Fatalf("C16 %s: JWK read from another JSON spelling is another key: %s (%v)\n %s", k.Name, bj, err, text)
 			}
 		}
 		// key type / curve names spelled in another letter case: refusing them is fine, but a reader that takes them must still
